@@ -6,7 +6,7 @@ EXPLANATION = ("In gix_fs::Stack::make_relative_path_current: (P1) push_director
                "component unless push()'s Ok edge was taken; (P2) from the Ok edge of a push_directory no pop of the current path is reachable within the "
                "same iteration without a pop_directory; (P3) the branch entered on the Err edge pops `current` and `current_relative`, decrements "
                "valid_components, restores current_is_directory=true (the parent that remains is a directory) and calls no pop_directory; (P4) the "
-               "common-prefix pop loop pops both paths, calls pop_directory only under the current_is_directory test and then sets it. Attributes::push_directory sets its level flag only on paths that added a pattern list (pop_directory always pops one). On the error edge of an attributes/ignore push no pop of that state (or of the whole delegate) follows. The content "
+               "common-prefix pop loop pops both paths, calls pop_directory only under the current_is_directory test and then sets it. Attributes::push_directory sets its level flag only on paths that added a pattern list (pop_directory always pops one). On the error edge of an attributes/ignore push no pop of that state (or of the whole delegate) follows; these pushes themselves push onto their own stacks only when no error return can follow; the leaf-to-directory transition sets current_is_directory on its success edge; the root is announced once. The content "
                "of attribute/ignore state is not decided.")
 
 
@@ -19,6 +19,7 @@ def run(db, chk):
     failed_push_not_popped_rule(db, chk)
     transition_flag_rule(db, chk)
     root_once_rule(db, chk)
+    push_is_atomic_rule(db, chk)
     f = db.one(r"^gix_fs::stack::<impl gix_fs::Stack>::make_relative_path_current$")
     fl = Flow(f)
     pushes = f.calls_to(r"stack::Delegate::push$")
@@ -199,3 +200,32 @@ def root_once_rule(db, chk):
         chk.ob("root-announced-once", "make_relative_path_current push_directory(root)@%d" % c.line, bool(memo),
                "whether the root is announced depends on %s only and nothing records that it happened: after a rejected first component (`bad/x`) the next call announces the root again - the delegate holds [root, root, ..]" % sorted(deps),
                c.where(), key="root-once|make_relative_path_current")
+
+
+def push_is_atomic_rule(db, chk):
+    """when Ignore::push_directory / Attributes::push_directory fail, the delegate reports the error and NO pop_directory() follows for that
+    directory.  Whatever they push onto their own stacks therefore has to be pushed when nothing can fail any more: after a `Vec::push` onto
+    a field of `self` no error return (`?` -> FromResidual) is reachable.  A level pushed first and orphaned by a failing load of .gitignore
+    stays for ever - for an excluded directory every later path is reported as excluded."""
+    n = 0
+    for nm in ("ignore::<impl gix_worktree::stack::state::Ignore>", "attributes::<impl gix_worktree::stack::state::Attributes>"):
+        fs = [f for f in db.by_crate["gix_worktree"] if f.kind != "promoted" and f.name.endswith("%s::push_directory" % nm)]
+        if len(fs) != 1:
+            chk.anchor_lost("gix_worktree %s::push_directory" % nm)
+            continue
+        f = fs[0]
+        fl = Flow(f)
+        errs = [c for c in f.calls() if c.is_(r"FromResidual<.*>>::from_residual$|::from_residual$")]
+        for c in f.calls():
+            if not c.is_(r"Vec::<T, A>::push$|Vec<T, A>>::push$") or not c.args:
+                continue
+            fields = {r[2][0] for r in fl.roots(c.args[0], stop_named=False) if r[0] == "arg" and r[1] == 1 and r[2]}
+            if not fields:
+                continue
+            n += 1
+            after = f.reach_from(c.target) if c.target is not None else set()
+            late = [e for e in errs if e.block in after]
+            chk.ob("directory-push-is-atomic", "%s push onto self%s@%d" % (nm.split("::")[0], sorted(fields)[0], c.line), not late,
+                   "an error return (line %s) is reachable after this level was pushed and no pop_directory() will follow: the orphaned level stays on the stack" % [e.line for e in late],
+                   c.where(), key="atomic-push|%s|%s" % (nm.split("::")[0], sorted(fields)[0]))
+    chk.floor("pushes onto the attribute/ignore state's own stacks", n, 2)
